@@ -456,7 +456,10 @@ fn run_one(cfg: &Cfg, refusal: Refusal, ctx: &mut Ctx) -> Option<String> {
             if cfg.attach && Some(p.wq_fd as i32) != other_fd {
                 fail(ctx, "params-attach", format!("wq_fd {} is not the ring to attach to ({other_fd:?})", p.wq_fd));
             }
-            if (sq_entries, cq_entries) != (sq_grant, cq_grant) {
+            // (Self-check of the verdict model; when a10 handed the kernel
+            // other parameters than configured, which is reported above, the
+            // two legitimately differ.)
+            if (sq_entries, cq_entries) != (sq_grant, cq_grant) && !ctx.failed() {
                 ctx.infra(format!("simulator granted ({sq_entries},{cq_entries}) but the verdict model says ({sq_grant},{cq_grant})"));
             }
             if sq_entries != want_entries || cfg.cq.is_some_and(|c| c != cq_entries) {
